@@ -26,6 +26,9 @@ def instances(tier):
             out.append(Instance("C04", "sys_common:s_run", dict(shape=sh, oracle="c04", opts={"phase": ph}),
                                 name="S/%s@%s" % (sid, ph), uf=True, cover=["solved"], weight=20))
     if tier == "thorough":
+        for sid, sh in shapes.enumerate_trees(4, pol="nonneg").items():
+            out.append(Instance("C04", "sys_common:s_run", dict(shape=sh, oracle="c04"), name="S/enum4/" + sid, uf=True,
+                                cover=["solved", "dead-possible"], weight=8, time_limit=3000))
         for sid, sh in shapes.pair_cover(pol="nonneg").items():
             out.append(Instance("C04", "sys_common:s_run", dict(shape=sh, oracle="c04"), name="S/pair/" + sid, uf=True,
                                 cover=["solved", "dead-possible"], weight=15, time_limit=3000))
